@@ -1,4 +1,4 @@
-"""GENUINE DEFECT (unchanged tree), signature C05:undo-copy-fault-leaves-blob.
+"""REPAIRED in /repo by fix commit a71c5cd (prints OK on the repaired tree, DEFECT before it); signature C05:undo-copy-fault-leaves-blob.
 
 BlobStorage.undo (the wrapper in blob.py over an undo-capable storage) copies <oid>/<source serial>.blob to
 <oid>/<undo serial>.blob and appends (oid, undo_serial) to dirty_oids only AFTER the copy.  If the copy
